@@ -85,6 +85,9 @@ def run_case(acc: Acc, seed: int, idx: int) -> None:
         # targeted: a page vanishes (deleted / renamed), ANOTHER page gets an edit that needs a write-back,
         # only that page is reindexed explicitly, then the plain reindex
         kinds = kinds[: rng.randint(0, 3)] + [rng.choice(["delete_page", "rename_page"]), rng.choice(["add_note", "advance_day"]), rng.choice(["add_note", "edit_body"]), "reindex_last_edited"] + kinds[-1:]
+    if idx % 8 == 2:
+        # targeted: a page vanishes, the index is brought up to date, the page comes back UNCHANGED
+        kinds = kinds[: rng.randint(0, 3)] + ["delete_page", "reindex", rng.choice(["edit_body", "advance_day"]), "restore_page", rng.choice(["reindex", "reindex_paths"])] + kinds[-1:]
     run.run(kinds)
     acc.count("refused_reindex_runs", run.refusals)
     case["history"] = run.log
